@@ -109,6 +109,17 @@ func main() {
 			os.Exit(2)
 		}
 		writeResult(*out, res)
+	case "numvesting":
+		res, err := vesting.RunNumeric(*edges, *walks, *seed)
+		if err != nil {
+			fmt.Fprintln(os.Stderr, "numvesting:", err)
+			os.Exit(2)
+		}
+		b, _ := json.MarshalIndent(res, "", " ")
+		if err := os.WriteFile(*out, b, 0o644); err != nil {
+			fmt.Fprintln(os.Stderr, err)
+			os.Exit(2)
+		}
 	default:
 		fmt.Fprintln(os.Stderr, "unknown command", cmd)
 		os.Exit(2)
